@@ -166,7 +166,11 @@ func coreC08() []c08Case {
 
 func genC08(t *rapid.T) c08Case {
 	c := c08Case{N: rapid.IntRange(2, hx.Pick(8, 32)).Draw(t, "n")}
-	c.Prog = genFileSet(t, gen.Pick(t, "mut", 3, 1) == 1)
+	if gen.Pick(t, "soup", 2, 1) == 1 {
+		c.Prog = genSoup(t)
+	} else {
+		c.Prog = genFileSet(t, gen.Pick(t, "mut", 3, 1) == 1)
+	}
 	k := rapid.IntRange(0, 6).Draw(t, "nothers")
 	for i := 0; i < k; i++ {
 		c.Others = append(c.Others, rapid.IntRange(0, 1000).Draw(t, "other"))
